@@ -84,6 +84,7 @@ type VM struct {
 	syncMaps  map[*Value]*Map
 	onceDone  map[*Value]bool
 	pools     map[*Value][]Value
+	curBuilder Value
 	permUsed  int
 	// PermuteBudget bounds how many ranged maps per path may take a non-insertion order (0 = no bound)
 	PermuteBudget int
